@@ -55,6 +55,7 @@ func ZzC09TransportDeterministic() {
 	err1 := h1.Unmarshal(base.HeaderValue{s})
 	err2 := h2.Unmarshal(base.HeaderValue{s})
 	zzAssert((err1 == nil) == (err2 == nil), "transport: same input accepted or rejected both times")
+	zzAssert(zzSameFailure(err1, err2), "transport: same input, same failure")
 	if err1 == nil && err2 == nil {
 		zzAssert(zzSameTransport(&h1, &h2), "transport: same input parses to the same value")
 	}
@@ -70,6 +71,7 @@ func ZzC09RangeDeterministic() {
 	err1 := h1.Unmarshal(base.HeaderValue{s})
 	err2 := h2.Unmarshal(base.HeaderValue{s})
 	zzAssert((err1 == nil) == (err2 == nil), "range: same input accepted or rejected both times")
+	zzAssert(zzSameFailure(err1, err2), "range: same input, same failure")
 	if err1 == nil && err2 == nil {
 		_, n1 := h1.Value.(*RangeNPT)
 		_, n2 := h2.Value.(*RangeNPT)
@@ -82,4 +84,90 @@ func ZzC09RangeDeterministic() {
 	}
 	zzCover("accepted", err1 == nil)
 	zzCover("rejected", err1 != nil)
+}
+
+// same failure: both nil, or both errors of the same kind (the engine keeps the
+// format string of fmt.Errorf, natively the formatted text is compared)
+func zzSameFailure(a, b error) bool {
+	if a == nil || b == nil {
+		return a == nil && b == nil
+	}
+	return a.Error() == b.Error()
+}
+
+var zzDetTokens = [][]string{
+	// KeyMgmt (';')
+	{"prot=mikey", "prot=sdes", `uri="u"`, `data="!!"`, `data="AQAAAAAAAAAAAA=="`, "foo=bar"},
+	// WWW-Authenticate Digest (',')
+	{`realm="r"`, `nonce="n"`, `algorithm="bad"`, `algorithm="MD5"`, `algorithm="nope"`, `stale="x"`, `opaque="o"`},
+	// Authorization Digest (',')
+	{`username="u"`, `realm="r"`, `nonce="n"`, `uri="x"`, `response="y"`, `algorithm="bad"`, `algorithm="worse"`, `algorithm="SHA-256"`},
+	// Session (';' after the id)
+	{"timeout=x", "timeout=5", "timeout=y", "foo=bar"},
+	// RTP-Info entry (';')
+	{"url=u", "seq=x", "seq=5", "rtptime=y", "rtptime=7", "foo=bar"},
+}
+
+// Determinism for the remaining key/value headers: an input made of 2..NTOK
+// tokens (valid and faulty ones, so that several faults can coexist) parsed
+// twice under independent map iteration orders gives the same value (compared
+// through its marshalled form) or the same failure.
+func ZzC09HeadersDeterministic() {
+	which := zzParam("HDR", 0)
+	toks := zzDetTokens[which]
+	sep := ";"
+	if which == 1 || which == 2 {
+		sep = ", "
+	}
+	s := zzPick(toks, "t1") + sep + zzPick(toks, "t2")
+	if zzParam("NTOK", 3) >= 3 {
+		s += sep + zzPick(toks, "t3")
+	}
+	switch which {
+	case 0:
+		var h1, h2 KeyMgmt
+		e1 := h1.Unmarshal(base.HeaderValue{s})
+		e2 := h2.Unmarshal(base.HeaderValue{s})
+		zzAssert(zzSameFailure(e1, e2), "keymgmt: same input, same failure")
+		if e1 == nil && e2 == nil {
+			zzAssert(h1.URL == h2.URL, "keymgmt: same value")
+		}
+		zzCover("rejected", e1 != nil)
+	case 1:
+		var h1, h2 Authenticate
+		e1 := h1.Unmarshal(base.HeaderValue{"Digest " + s})
+		e2 := h2.Unmarshal(base.HeaderValue{"Digest " + s})
+		zzAssert(zzSameFailure(e1, e2), "authenticate: same input, same failure")
+		if e1 == nil && e2 == nil {
+			zzAssert(h1.Marshal()[0] == h2.Marshal()[0], "authenticate: same value")
+		}
+		zzCover("rejected", e1 != nil)
+	case 2:
+		var h1, h2 Authorization
+		e1 := h1.Unmarshal(base.HeaderValue{"Digest " + s})
+		e2 := h2.Unmarshal(base.HeaderValue{"Digest " + s})
+		zzAssert(zzSameFailure(e1, e2), "authorization: same input, same failure")
+		if e1 == nil && e2 == nil {
+			zzAssert(h1.Marshal()[0] == h2.Marshal()[0], "authorization: same value")
+		}
+		zzCover("rejected", e1 != nil)
+	case 3:
+		var h1, h2 Session
+		e1 := h1.Unmarshal(base.HeaderValue{"abc;" + s})
+		e2 := h2.Unmarshal(base.HeaderValue{"abc;" + s})
+		zzAssert(zzSameFailure(e1, e2), "session: same input, same failure")
+		if e1 == nil && e2 == nil {
+			zzAssert(h1.Marshal()[0] == h2.Marshal()[0], "session: same value")
+		}
+		zzCover("rejected", e1 != nil)
+	default:
+		var h1, h2 RTPInfo
+		e1 := h1.Unmarshal(base.HeaderValue{s})
+		e2 := h2.Unmarshal(base.HeaderValue{s})
+		zzAssert(zzSameFailure(e1, e2), "rtp-info: same input, same failure")
+		if e1 == nil && e2 == nil {
+			zzAssert(h1.Marshal()[0] == h2.Marshal()[0], "rtp-info: same value")
+		}
+		zzCover("rejected", e1 != nil)
+	}
 }
